@@ -200,10 +200,10 @@ class OMWrappedFunc(object):
         if name in self._inputs:
             if 'resid' in kwargs:
                 self._inputs[name]['resid'] = kwargs['resid']
-                if 'val' in kwargs:
-                    self._inputs[name]['shape'] = np.asarray(kwargs['val']).shape
-                elif 'shape' in kwargs:
+                if kwargs.get('shape') is not None:
                     self._inputs[name]['shape'] = kwargs['shape']
+                elif 'val' in kwargs:
+                    self._inputs[name]['shape'] = np.asarray(kwargs['val']).shape
             else:
                 raise RuntimeError(f"In add_output, '{name}' already registered as an input.")
         if name in self._outputs:
